@@ -187,11 +187,14 @@ impl EagerAggregation {
             _ => return None,
         };
 
-        // Pre-aggregate R by its join key
+        // Pre-aggregate R by its join key. The key field keeps the column's OWN
+        // type: declaring an INT32 / DATE key as Int64 made the rewritten LEFT
+        // join match nothing, and every count came out 0.
+        let r_key_type = r_on.data_type(&r_schema).ok()?;
         let pre_fields = vec![
             SchemaField {
                 name: r_col.name.clone(),
-                data_type: DataType::Int64,
+                data_type: r_key_type,
                 nullable: true,
                 relation: None,
             },
